@@ -68,8 +68,8 @@ def homomorphism(ctx):
                 got = ev.ev(_ret(fn))
                 ok = got == (want * x if meth == "_matvec" else want)
                 msg = "%s.%s computes %r, the class denotes %r" % (cname, meth, got, want)
-            except AnalysisError as e:
-                ok, msg = False, str(e)
+            except AnalysisError:
+                raise  # an expression the term algebra cannot read: cannot analyse, not a verdict
             r.check(ok, "%s.%s" % (cname, meth), DO, "%s.%s" % (cname, meth), fn.lineno, "%s.%s term" % (cname, meth), msg)
     # real operator on complex vectors: f(Re x) + 1j f(Im x)
     for cname, meth, leaf in (("GenericDiscreteBoundaryOperator", "_matvec", "self._evaluator.matvec"), ("DenseDiscreteBoundaryOperator", "_matmat", None), ("SparseDiscreteBoundaryOperator", "_matmat", None)):
@@ -84,10 +84,7 @@ def homomorphism(ctx):
             leaves = {"_np.real(%s)" % arg: re, "_np.imag(%s)" % arg: im, arg: full, "real(%s)" % arg: re, "imag(%s)" % arg: im,
                       "self.to_dense()": F, "self.to_sparse()": F, "self._evaluator": F}
             ev = NCEval(leaves, morphisms=("matvec",))
-            try:
-                oks.append(ev.ev(ret.value) == F * full)
-            except AnalysisError:
-                oks.append(False)
+            oks.append(ev.ev(ret.value) == F * full)  # (an expression the algebra cannot read: cannot analyse, not a verdict)
         r.check(bool(oks) and all(oks), "%s.%s real-on-complex" % (cname, meth), DO, "%s.%s" % (cname, meth), fn.lineno, "%s.%s complex split" % (cname, meth),
                 "some return path does not equal F (Re x + i Im x) as a linear map")
     # boundary operator combinators
@@ -100,12 +97,12 @@ def homomorphism(ctx):
     }
     for cname, want in bspec.items():
         fn = bm.fn(cname + "._assemble")
-        ev = NCEval(dict(W), morphisms=("weak_form",), calls={"self._op2.strong_form()": NC.op("Minv2") * NC.op("W2")})
+        ev = NCEval(dict(W), morphisms=("weak_form",), calls={"self._op2.strong_form()": NC.op("Minv2") * NC.op("W2"), "self._op1.strong_form()": NC.op("Minv1") * NC.op("W1")})
         try:
             got = ev.ev(_ret(fn))
             ok, msg = got == want, "%s._assemble builds %r, expected %r" % (cname, got, want)
-        except AnalysisError as e:
-            ok, msg = False, str(e)
+        except AnalysisError:
+            raise  # an expression the term algebra cannot read: cannot analyse, not a verdict
         r.check(ok, cname + "._assemble", BO, cname + "._assemble", fn.lineno, cname + " weak form term", msg)
     # blocked combinators: same terms, and the block spaces are taken from the operand that provides them
     blm = ctx.repo.mod(BL)
@@ -116,12 +113,12 @@ def homomorphism(ctx):
     }
     for cname, (want, spaces) in blspec.items():
         fn = blm.fn(cname + "._assemble")
-        ev = NCEval(dict(W), morphisms=("weak_form",), calls={"self._op2.strong_form()": NC.op("Minv2") * NC.op("W2")})
+        ev = NCEval(dict(W), morphisms=("weak_form",), calls={"self._op2.strong_form()": NC.op("Minv2") * NC.op("W2"), "self._op1.strong_form()": NC.op("Minv1") * NC.op("W1")})
         try:
             got = ev.ev(_ret(fn))
             ok, msg = got == want, "%s._assemble builds %r, expected %r" % (cname, got, want)
-        except AnalysisError as e:
-            ok, msg = False, str(e)
+        except AnalysisError:
+            raise  # an expression the term algebra cannot read: cannot analyse, not a verdict
         r.check(ok, cname + "._assemble", BL, cname + "._assemble", fn.lineno, cname + " weak form term", msg)
         bad = []
         for prop, src in spaces.items():
@@ -183,8 +180,8 @@ def homomorphism(ctx):
         try:
             got = NCEval(P, morphisms=("evaluate",)).ev(_ret(fn))
             ok, msg = got == want, "%s.evaluate computes %r, expected %r" % (cname, got, want)
-        except AnalysisError as e:
-            ok, msg = False, str(e)
+        except AnalysisError:
+            raise  # an expression the term algebra cannot read: cannot analyse, not a verdict
         r.check(ok, cname + ".evaluate", PO, cname + ".evaluate", fn.lineno, cname + " evaluate term", msg)
     fn = pm.fn("PotentialOperator.evaluate")
     r.check(roles.canon(_ret(fn), roles.Defs(fn)).replace(" ", "") == "self._evaluator.evaluate(%s.coefficients)" % arg_names(fn)[1], "PotentialOperator.evaluate", PO, "PotentialOperator.evaluate", fn.lineno,
@@ -340,10 +337,7 @@ def block_matvec(ctx):
                             leaves = {LX: full, "_np.real(%s)" % LX: re, "_np.imag(%s)" % LX: im, "self._operators[%s, %s]" % (I, J): F}
                             good = bool(sums)
                             for s_ in sums:
-                                try:
-                                    good = good and NCEval(leaves, morphisms=("dot",)).ev(s_.vnode) == F * full
-                                except AnalysisError:
-                                    good = False
+                                good = good and NCEval(leaves, morphisms=("dot",)).ev(s_.vnode) == F * full  # (unreadable: cannot analyse)
                             order = bool(sums) and all(s_.node.lineno < cd[0].node.lineno for s_ in sums) and xs[0].node.lineno < min(s_.node.lineno for s_ in sums) and rd[0].node.lineno > lJ.lineno
                             # every write to the row view inside the block loop accumulates, and some accumulation happens on every path
                             writes = [s for s in S if s.loops == (lI, lJ) and (unparse(s.tnode) == LV or unparse(s.tnode) == LV + "[:]")]
@@ -595,6 +589,6 @@ def dunder_algebra(ctx):
             try:
                 got = run(meth, other)
                 ok, msg = got == want, "%s.%s(%s) builds %r, the expression denotes %r" % (cls, meth, "scalar" if other is s_ else "operator" if other is not None else "", got, want)
-            except AnalysisError as e:
-                ok, msg = False, str(e)
+            except AnalysisError:
+                raise  # an expression the term algebra cannot read: cannot analyse, not a verdict
             r.check(ok, "%s.%s %s" % (cls, meth, "(scalar)" if other is s_ else "(operator)" if other is not None else ""), rel, "%s.%s" % (cls, meth), meths[meth].lineno, "%s.%s %s" % (cls, meth, "scalar" if other is s_ else "operator"), msg)
